@@ -694,8 +694,12 @@ pub fn gen_c11(out: &mut Out, rng: &mut Rng, thorough: bool) {
         let codec = if request { "rtusrv" } else { "rtucli" };
         let slave = *rng.pick(&alphabet);
         let frame = gen_rtu_frame(rng, request, Some(slave));
+        // long runs too: around the decoder's own bookkeeping limits (20 retries, a record of 256
+        // dropped bytes) and their multiples, in both tiers
         let lens: Vec<usize> = if thorough && i % 50 == 0 {
             vec![max_noise, 1000, 257, 256, 255, 100]
+        } else if i % 40 == 1 {
+            vec![100, 254, 255, 256, 257, 258, 259, 513, 514, 515, 516, 773, 1031]
         } else {
             (0..=25).collect()
         };
